@@ -10,7 +10,7 @@ RULE = ("hand-written catalogue specifications, then seeded random specification
         "files. distinct = (class hash bucket, mode, outcome class, size bucket)")
 ASSUMPTIONS = ["values are typed-or-None Python values of the declared field types", "text content free of '&', quotes, backslashes, non-ASCII (NonDegenerate)"]
 run = genprops.run_c02
-replay = genprops.replay_generic
+replay = genprops.replay_shown_then_rerun(genprops.run_c02)
 
 
 def oracle_sweep(ctx):
